@@ -330,7 +330,8 @@ pub fn api_use_part(deadline: &Deadline) -> Stats {
                     }
                     if got != want {
                         let pos = got.iter().zip(want.iter()).position(|(a, b)| a != b).unwrap_or(got.len().min(want.len()));
-                        st.violation("io::Error of the driver is not passed on as it is", u << 8 | kind as u64, format!("program '{}':\n{text}the driver's call {fault_at} fails with io::ErrorKind::{kind:?}\nline {pos}: got {:?}, expected {:?}\nall: {got:?}", p.name, got.get(pos), want.get(pos)), || json!({"kind": "none", "text": text, "expected": want, "observed": got}));
+                        let both_rows = got.get(pos).map_or(false, |l| l.starts_with("row")) && want.get(pos).map_or(false, |l| l.starts_with("row"));
+                        st.violation(if both_rows { "a row of a run with one failed call differs from the fault-free run" } else { "io::Error of the driver is not passed on as it is" }, u << 8 | kind as u64, format!("program '{}':\n{text}the driver's call {fault_at} fails with io::ErrorKind::{kind:?}\nline {pos}: got {:?}, expected {:?}\nall: {got:?}", p.name, got.get(pos), want.get(pos)), || json!({"kind": "none", "text": text, "expected": want, "observed": got}));
                         return;
                     }
                 }
